@@ -23,6 +23,7 @@ type gor struct {
 	blocked func() bool // non-nil: goroutine waits until blocked() returns true
 	why     string
 	name    string
+	pend    []interface{} // synchronisation objects touched by the operation this goroutine is about to perform
 }
 
 type scheduler struct {
@@ -31,14 +32,14 @@ type scheduler struct {
 	killed   bool
 	abort    interface{} // panic value raised in a non-main goroutine, to be re-raised on main
 	yields   int
-	timers   int
 	switches int
+	sleep    map[int]bool // sleep set (partial-order reduction)
 }
 
 var sched *scheduler
 
 func newScheduler() *scheduler {
-	s := &scheduler{}
+	s := &scheduler{sleep: map[int]bool{}}
 	main := &gor{id: 0, wake: make(chan struct{}, 1), name: "main"}
 	s.gs = []*gor{main}
 	s.cur = main
@@ -67,49 +68,106 @@ func (s *scheduler) enabled() []*gor {
 	return out
 }
 
-// yield is called by the running goroutine g at a synchronisation point. If g has set
-// g.blocked it will only resume once the condition holds.
-func (s *scheduler) yield(g *gor, why string) {
+// commuting marks an operation that commutes with other commuting operations on the same
+// object (WaitGroup.Done/Add among themselves, read-lock operations among themselves).
+type commuting struct{ obj interface{} }
+
+func dependent(a, b []interface{}) bool {
+	for _, x := range a {
+		cx, xc := x.(commuting)
+		if xc {
+			x = cx.obj
+		}
+		for _, y := range b {
+			cy, yc := y.(commuting)
+			if yc {
+				y = cy.obj
+			}
+			if x == y && !(xc && yc) {
+				return true
+			}
+		}
+	}
+	return false
+}
+
+func (s *scheduler) describeBlocked() string {
+	var sb strings.Builder
+	for _, x := range s.gs {
+		if !x.done {
+			fmt.Fprintf(&sb, "[g%d %s blocked on %s] ", x.id, x.name, x.why)
+		}
+	}
+	return sb.String()
+}
+
+// pick decides which goroutine runs next (cur is the goroutine asking, nil if it has exited).
+// Every operation at a yield point touches exactly the objects in gor.pend; operations on
+// disjoint objects commute (data-race freedom between yield points is assumed), so sleep sets
+// prune interleavings that differ only in the order of independent operations.
+func (s *scheduler) pick(cur *gor) *gor {
+	en := s.enabled()
+	if len(en) == 0 {
+		EX.recordViolation("deadlock", "deadlock", "all goroutines blocked: "+s.describeBlocked(), "", EX.curModel())
+		panic(pathAbort{"violation", "deadlock"})
+	}
+	var cands []*gor
+	for _, x := range en {
+		if !s.sleep[x.id] {
+			cands = append(cands, x)
+		}
+	}
+	if len(cands) == 0 {
+		panic(pathAbort{"pruned", "sleep-set blocked (equivalent interleaving explored elsewhere)"})
+	}
+	// deterministic order: the asking goroutine first
+	for i, x := range cands {
+		if x == cur {
+			cands[0], cands[i] = cands[i], cands[0]
+			break
+		}
+	}
+	var next *gor
+	if EX.Lim.MaxSwitches > 0 && s.switches >= EX.Lim.MaxSwitches && cands[0] == cur {
+		next = cur // preemption bound used up
+	} else if len(cands) == 1 {
+		next = cands[0]
+	} else {
+		idx, payload := EX.ChooseP(len(cands), "sched", func(i int) []int {
+			var ids []int
+			for _, x := range cands[:i] {
+				ids = append(ids, x.id)
+			}
+			return ids
+		})
+		next = cands[idx]
+		for _, id := range payload {
+			s.sleep[id] = true
+		}
+		if cands[0] == cur && next != cur {
+			s.switches++
+		}
+	}
+	for id := range s.sleep {
+		if dependent(s.gs[id].pend, next.pend) {
+			delete(s.sleep, id)
+		}
+	}
+	return next
+}
+
+// yield is called by the running goroutine g right before a synchronisation operation on objs.
+func (s *scheduler) yield(g *gor, why string, objs ...interface{}) {
 	if s.killed {
 		panic(gorKill{})
 	}
 	s.yields++
-	en := s.enabled()
-	if len(en) == 0 {
-		// deadlock: nobody can run
-		var sb strings.Builder
-		for _, x := range s.gs {
-			if !x.done {
-				fmt.Fprintf(&sb, "[g%d %s blocked on %s] ", x.id, x.name, x.why)
-			}
-		}
-		EX.recordViolation("deadlock", "deadlock", "all goroutines blocked: "+sb.String(), "", EX.model)
-		panic(pathAbort{"violation", "deadlock"})
-	}
-	var next *gor
-	if len(en) == 1 {
-		next = en[0]
-	} else {
-		// prefer-current ordering so that choice 0 = "keep running" when possible
-		idx := 0
-		for i, x := range en {
-			if x == g {
-				idx = i
-			}
-		}
-		en[0], en[idx] = en[idx], en[0]
-		if EX.Lim.MaxSwitches > 0 && s.switches >= EX.Lim.MaxSwitches && en[0] == g {
-			next = g
-		} else {
-			c := EX.Choose(len(en), "sched")
-			next = en[c]
-		}
-	}
+	g.pend = objs
+	next := s.pick(g)
 	if next == g {
 		g.blocked = nil
 		return
 	}
-	s.switches++
 	s.cur = next
 	next.wake <- struct{}{}
 	s.park(g)
@@ -131,23 +189,49 @@ func (s *scheduler) park(g *gor) {
 }
 
 // block makes g wait until cond holds (cond is evaluated by the scheduler).
-func (s *scheduler) block(g *gor, why string, cond func() bool) {
+func (s *scheduler) block(g *gor, why string, cond func() bool, objs ...interface{}) {
 	g.blocked = cond
 	g.why = why
-	s.yield(g, why)
+	s.yield(g, why, objs...)
 	g.why = ""
 }
 
-func spawn(fr *frame, pos token.Pos, fn value, args []value) {
-	s := sched
-	g := &gor{id: len(s.gs), wake: make(chan struct{}, 1)}
-	if f, ok := fn.(*ssa.Function); ok {
-		g.name = f.String()
-	} else if c, ok := fn.(*closure); ok {
-		g.name = c.Fn.String()
+// exit is called when goroutine g has finished: pass the baton.
+func (s *scheduler) exit(g *gor) {
+	g.done = true
+	delete(s.sleep, g.id)
+	if s.killed {
+		s.ack()
+		return
 	}
-	s.gs = append(s.gs, g)
-	i := fr.i
+	toMain := func() {
+		m := s.gs[0]
+		s.cur = m
+		m.blocked = nil
+		m.wake <- struct{}{}
+	}
+	if s.abort != nil {
+		toMain()
+		return
+	}
+	var next *gor
+	func() {
+		defer func() {
+			if r := recover(); r != nil {
+				s.abort = r
+			}
+		}()
+		next = s.pick(nil)
+	}()
+	if s.abort != nil || next == nil {
+		toMain()
+		return
+	}
+	s.cur = next
+	next.wake <- struct{}{}
+}
+
+func (s *scheduler) startGor(g *gor, body func()) {
 	go func() {
 		<-g.wake
 		if s.killed {
@@ -162,76 +246,42 @@ func spawn(fr *frame, pos token.Pos, fn value, args []value) {
 					if _, ok := r.(gorKill); ok {
 						return
 					}
-					// a panic escaping a goroutine crashes the program / ends the path: hand to main
+					// a panic escaping a goroutine ends the path: hand it to main
 					if s.abort == nil {
 						s.abort = r
 					}
 				}
 			}()
-			root := &frame{i: i, g: g}
-			callIn(i, root, pos, fn, args)
+			body()
 		}()
-		g.done = true
-		if s.killed {
-			s.ack()
-			return
-		}
-		if s.abort != nil {
-			// wake main to re-raise
-			m := s.gs[0]
-			s.cur = m
-			m.blocked = nil
-			m.wake <- struct{}{}
-			return
-		}
-		// goroutine finished: pass the baton
-		en := s.enabled()
-		if len(en) == 0 {
-			// everyone else blocked: deadlock is reported on main
-			s.abort = deadlockAbort(s)
-			m := s.gs[0]
-			s.cur = m
-			m.wake <- struct{}{}
-			return
-		}
-		var next *gor
-		if len(en) == 1 {
-			next = en[0]
-		} else {
-			var c int
-			func() {
-				defer func() {
-					if r := recover(); r != nil {
-						s.abort = r
-						c = -1
-					}
-				}()
-				c = EX.Choose(len(en), "sched")
-			}()
-			if c < 0 {
-				m := s.gs[0]
-				s.cur = m
-				m.wake <- struct{}{}
-				return
-			}
-			next = en[c]
-		}
-		s.cur = next
-		next.wake <- struct{}{}
+		s.exit(g)
 	}()
-	// spawning is a yield point
-	s.yield(curG(fr), "go")
 }
 
-func deadlockAbort(s *scheduler) interface{} {
-	var sb strings.Builder
-	for _, x := range s.gs {
-		if !x.done {
-			fmt.Fprintf(&sb, "[g%d %s blocked on %s] ", x.id, x.name, x.why)
-		}
+func spawn(fr *frame, pos token.Pos, fn value, args []value) {
+	s := sched
+	g := &gor{id: len(s.gs), wake: make(chan struct{}, 1)}
+	if f, ok := fn.(*ssa.Function); ok {
+		g.name = f.String()
+	} else if c, ok := fn.(*closure); ok {
+		g.name = c.Fn.String()
 	}
-	EX.recordViolation("deadlock", "deadlock", "all goroutines blocked: "+sb.String(), "", EX.model)
-	return pathAbort{"violation", "deadlock"}
+	s.gs = append(s.gs, g)
+	i := fr.i
+	s.startGor(g, func() {
+		root := &frame{i: i, g: g}
+		callIn(i, root, pos, fn, args)
+	})
+	// no yield here: the new goroutine becomes runnable and can be chosen at the spawner's
+	// next synchronisation point (invisible local steps commute with it).
+}
+
+// spawnEngine starts an engine-level pseudo goroutine (timer etc.).
+func spawnEngine(fr *frame, name string, body func(g *gor)) {
+	s := sched
+	g := &gor{id: len(s.gs), wake: make(chan struct{}, 1), name: name}
+	s.gs = append(s.gs, g)
+	s.startGor(g, func() { body(g) })
 }
 
 // callIn runs fn on a fresh goroutine root frame.
@@ -394,7 +444,9 @@ func (c *symchan) canRecv() bool {
 
 func chanSend(fr *frame, c *symchan, v value) {
 	g := curG(fr)
-	sched.yield(g, "chan send")
+	if c != nil && c.canSend() {
+		sched.yield(g, "chan send", c)
+	}
 	if c == nil {
 		sched.block(g, "send on nil channel", func() bool { return false })
 	}
@@ -403,7 +455,7 @@ func chanSend(fr *frame, c *symchan, v value) {
 	}
 	w := &waiter{g: g, val: v}
 	c.sendq = append(c.sendq, w)
-	sched.block(g, "chan send", func() bool { return w.done || c.closed })
+	sched.block(g, "chan send", func() bool { return w.done || c.closed }, c)
 	if !w.done && c.closed {
 		panic(targetPanicMsg("send on closed channel"))
 	}
@@ -411,7 +463,9 @@ func chanSend(fr *frame, c *symchan, v value) {
 
 func chanRecv(fr *frame, c *symchan) (value, bool) {
 	g := curG(fr)
-	sched.yield(g, "chan recv")
+	if c != nil && c.canRecv() {
+		sched.yield(g, "chan recv", c)
+	}
 	if c == nil {
 		sched.block(g, "receive from nil channel", func() bool { return false })
 	}
@@ -420,7 +474,7 @@ func chanRecv(fr *frame, c *symchan) (value, bool) {
 	}
 	w := &waiter{g: g}
 	c.recvq = append(c.recvq, w)
-	sched.block(g, "chan recv", func() bool { return w.done || c.closed })
+	sched.block(g, "chan recv", func() bool { return w.done || c.closed }, c)
 	if w.done {
 		return w.val, w.ok
 	}
@@ -435,25 +489,40 @@ func chanClose(fr *frame, c *symchan) {
 	if c.closed {
 		panic(targetPanicMsg("close of closed channel"))
 	}
+	sched.yield(curG(fr), "chan close", c)
+	if c.closed {
+		panic(targetPanicMsg("close of closed channel"))
+	}
 	c.closed = true
-	sched.yield(curG(fr), "chan close")
 }
 
 func doSelect(fr *frame, instr *ssa.Select) value {
 	g := curG(fr)
-	sched.yield(g, "select")
 	type cs struct {
 		c    *symchan
 		send bool
 		v    value
 	}
 	var cases []cs
+	var objs []interface{}
 	for _, st := range instr.States {
 		c := cs{c: fr.get(st.Chan).(*symchan), send: st.Dir == types.SendOnly}
 		if st.Send != nil {
 			c.v = fr.get(st.Send)
 		}
 		cases = append(cases, c)
+		if c.c != nil {
+			objs = append(objs, c.c)
+		}
+	}
+	anyReady := !instr.Blocking
+	for _, c := range cases {
+		if c.c != nil && (c.send && c.c.canSend() || !c.send && c.c.canRecv()) {
+			anyReady = true
+		}
+	}
+	if anyReady {
+		sched.yield(g, "select", objs...)
 	}
 	result := func(chosen int, recv value, recvOk bool) value {
 		r := tuple{chosen, recvOk}
@@ -516,7 +585,7 @@ func doSelect(fr *frame, instr *ssa.Select) value {
 		}
 		return -1
 	}
-	sched.block(g, "select", func() bool { return ss.fired || anyClosed() >= 0 })
+	sched.block(g, "select", func() bool { return ss.fired || anyClosed() >= 0 }, objs...)
 	if ss.fired {
 		return result(ss.chosen, ss.recv, ss.recvOk)
 	}
